@@ -93,7 +93,7 @@ func RunStepped(r *ev.Run, prop string, n int) {
 		r.Case("stepped case %d profile %s: %d queues %d workers %d actions", i, p.Name, len(w.PQs), len(w.Workers), len(w.Actions))
 		c := NewCase(w, p, rng)
 		if p.RetryHeavy {
-			c.Scenario = i % 4
+			c.Scenario = i % 5
 		}
 		res := c.Run(nil)
 		reportCase(r, prop, i, res, foreign)
